@@ -600,6 +600,102 @@ theorem spec_accepts_model (hp1 : ∀ x ∈ issued T, x.2 < np)
 
 end
 
+/-! ### the same with the hypothesis on the operations instead of the trace -/
+
+theorem issued_sends (fx : Bool) (np : Nat) : ∀ (ops : List Op) (s : St) (ids : List RId) (x : RId × Peer),
+    x ∈ issued (runT fx np s ids ops) → Op.send x.2 ∈ ops := by
+  intro ops
+  induction ops with
+  | nil => intro s ids x hx; simp [runT, issued] at hx
+  | cons o os ih =>
+    intro s ids x hx
+    simp only [runT, issued, List.flatMap_cons, List.mem_append] at hx
+    rcases hx with hx | hx
+    · cases o <;> simp [issuedOf] at hx
+      rename_i p
+      split at hx
+      · rename_i h1 h2
+        simp only [List.mem_singleton] at hx
+        subst hx
+        cases h1
+        simp
+      · simp at hx
+    · exact List.mem_cons_of_mem _ (ih _ _ x hx)
+
+theorem step_request_ev (s : St) (o : Op) (p : Peer) (c : CId) (id : RId)
+    (h : Ev.request p c id ∈ (step true s o).2.evs) : o = .hRequest p c id := by
+  cases o with
+  | send q =>
+    simp only [step] at h
+    split at h
+    · simp at h
+    · split at h <;> simp at h
+  | established q c' => simp [step] at h
+  | closed q c' =>
+    simp only [step] at h
+    split at h
+    · simp at h
+    · split at h <;> simp at h
+  | dialFailure q c' cond =>
+    simp only [step] at h
+    split at h
+    · simp at h
+    · split at h <;> simp at h
+  | hOut q c' i k =>
+    simp only [step, if_true] at h
+    split at h
+    · cases k <;> simp [hOutEv] at h
+    · simp at h
+  | hRequest q c' i =>
+    simp only [step] at h
+    split at h
+    · simp at h
+    · split at h
+      · simp at h
+      · simp at h; obtain ⟨rfl, rfl, rfl⟩ := h; rfl
+  | hIn q c' i k =>
+    simp only [step, if_true] at h
+    split at h
+    · cases k <;> simp [hInEv] at h
+    · split at h <;> simp at h
+
+theorem mem_delivered (evs : List Ev) (x : RId × Peer) :
+    x ∈ delivered evs ↔ ∃ c, Ev.request x.2 c x.1 ∈ evs := by
+  simp only [delivered, List.mem_filterMap]
+  constructor
+  · rintro ⟨e, he, h⟩
+    cases e <;> simp [deliveredOf] at h
+    rename_i p c id
+    subst h
+    exact ⟨c, he⟩
+  · rintro ⟨c, h⟩
+    exact ⟨_, h, rfl⟩
+
+theorem delivered_requests (np : Nat) : ∀ (ops : List Op) (s : St) (ids : List RId) (x : RId × Peer),
+    x ∈ delivered (Trace.evs (runT true np s ids ops)) → ∃ c, Op.hRequest x.2 c x.1 ∈ ops := by
+  intro ops
+  induction ops with
+  | nil => intro s ids x hx; simp [runT, Trace.evs, delivered] at hx
+  | cons o os ih =>
+    intro s ids x hx
+    rw [runT, evs_cons, delivered_append, List.mem_append] at hx
+    rcases hx with hx | hx
+    · obtain ⟨c, hc⟩ := (mem_delivered _ x).1 hx
+      exact ⟨c, by rw [step_request_ev s o x.2 c x.1 hc]; simp⟩
+    · obtain ⟨c, hc⟩ := ih _ _ x hx
+      exact ⟨c, List.mem_cons_of_mem _ hc⟩
+
+/-- **The Spec accepts the model**, hypothesis on the operations: the peers of the `send_request`
+and `Request` operations are among the `np` peers whose `is_pending_*` is sampled. -/
+theorem spec_accepts_model_ops (dbg : Bool) (np : Nat) (ops : List Op)
+    (hs : ∀ p, Op.send p ∈ ops → p < np) (hr : ∀ p c id, Op.hRequest p c id ∈ ops → p < np) :
+    spec (runT true np (init dbg) [] ops) = true := by
+  apply spec_accepts_model
+  · intro x hx; exact hs _ (issued_sends true np ops _ _ x hx)
+  · intro x hx
+    obtain ⟨c, hc⟩ := delivered_requests np ops _ _ x hx
+    exact hr _ _ _ hc
+
 /-! ## The original code (finding `C45-late-handler-event`)
 
 `step false` is the behaviour before the repair: `debug_assert!(removed)` and then the event is
@@ -673,6 +769,7 @@ end C45
 #print axioms C45.exactly_once_in_at_quiescence
 #print axioms C45.panics_excused
 #print axioms C45.spec_accepts_model
+#print axioms C45.spec_accepts_model_ops
 #print axioms C45.late_handler_event_buggy_counterexample
 #print axioms C45.late_handler_event_buggy_panics
 #print axioms C45.late_handler_event_fixed
